@@ -88,8 +88,8 @@ class CipherScenario(Scenario):
             return {"op": "restart"}
         pt = _plaintext(rng)
         via = rng.choice(["keyfile", "keyfile", "provider", "field"])
-        return {"op": "encrypt", "key": rng.choice(KEYPATHS), "method": rng.choice(["aes", "aes", "xor", "best"]), "pt": pt.hex(),
-                "via": via, "as_str": rng.random() < 0.5}
+        return {"op": "encrypt", "key": rng.choice(KEYPATHS), "method": rng.choice(["aes", "aes", "xor", "best", "best"]), "pt": pt.hex(),
+                "via": via, "as_str": rng.random() < 0.5, "warm": rng.choice([0, 0, 1, 2, 3])}
 
     def apply(self, st, op, rec):
         k = op["op"]
@@ -129,8 +129,15 @@ class CipherScenario(Scenario):
         d0 = len(w.draws)
         basic = None
         if via == "keyfile":
+            warm = op.get("warm", 0)
+
             def run():
                 with KeyFile(kpath) as kf:
+                    # the key context may stay open across several encryptions (and nested contexts); the one
+                    # that is judged is the last
+                    for j in range(warm):
+                        with kf:
+                            kf.encrypt(b"warm-up %d" % j, method=method if j % 2 == 0 else "best")
                     return kf.encrypt(text, method=method)
             sv, err = self._call(run)
         elif via == "provider":
@@ -168,6 +175,9 @@ class CipherScenario(Scenario):
             rec.probe("xor-checked" + (":longer-than-key" if len(pt) > 32 else ""))
         else:
             ivs = [d for d in draws if d[2] == 16]
+            warm_aes = sum(1 for j in range(op.get("warm", 0) if via == "keyfile" else 0) if (method if j % 2 == 0 else "best") != "xor")
+            if len(ivs) == 1 + warm_aes:
+                ivs = ivs[-1:]
             if len(ivs) != 1:
                 rec.fail("C08/iv", "C08/iv-not-one-fresh-draw/%s/%d" % (via, min(len(ivs), 2)),
                          "an AES encryption made %d 16-byte entropy draws (expected exactly one fresh IV)" % len(ivs))
@@ -341,7 +351,7 @@ def rng_choice(n, seq):
 # ======================================================================================= C09
 
 ALGS = ["md5", "sha1", "sha224", "sha256", "sha384", "sha512"]
-SECRETS = ["pw!one", "", "ünï!cöde", "x!" * 40, "a", "pass word!", "Pw!One", "\u0000nul!", "user:pass", "root:toor!", ":", "YWJj:ZGVm"]
+SECRETS = ["pw!one", "", "ünï!cöde", "x!" * 40, "a", "pass word!", "Pw!One", "\u0000nul!", "user:pass", "root:toor!", ":", "YWJj:ZGVm", "e\u0301le\u0300ve!", "\u212bngstro\u0308m!", "\u1100\u1161!pw"]
 
 
 def neighbours(p):
